@@ -225,7 +225,7 @@ func c20Seeds() map[int][][]byte {
 }
 
 func C20(rep *ev.Reporter, tier string) {
-	bud := NewBudget(58 * time.Second)
+	bud := NewBudget(150 * time.Second)
 	nSeeds := 1
 	if tier == "thorough" {
 		bud = NewBudget(12 * time.Minute)
